@@ -412,8 +412,10 @@ func checkC15(w *World, r *Report) {
 		})
 		// (returning without a write is fine when not a single message of the batch was accepted)
 		emptyCut := map[Edge]bool{}
-		for _, e := range emptyBatchEdges(w, g, envF["Messages"]) {
-			emptyCut[e] = true
+		if em, _ := batchEmptyEdges(w, g, envF["Messages"], envs[0]); true {
+			for _, e := range em {
+				emptyCut[e] = true
+			}
 		}
 		for _, e := range skip {
 			rr := g.reach([]int{e.to}, sendNode, emptyCut)
@@ -1018,20 +1020,7 @@ func checkC16(w *World, r *Report) {
 		var nonEmpty []Edge
 		for _, al := range w.allocsOf(W, a.envT) {
 			if fs, okF := w.litFields(al); okF && fs["Messages"] != nil {
-				want := "len(" + w.pathOf(fs["Messages"]) + ")"
-				_, ne := wg.CondEdges(func(c ssa.Value) (bool, bool) {
-					b, ok := c.(*ssa.BinOp)
-					if !ok || w.pathOf(b.X) != want || w.pathOf(b.Y) != "K:0" {
-						return false, false
-					}
-					switch b.Op {
-					case token.EQL, token.LEQ:
-						return true, true
-					case token.NEQ, token.GTR:
-						return false, true
-					}
-					return false, false
-				})
+				_, ne := batchEmptyEdges(w, wg, fs["Messages"], al)
 				nonEmpty = append(nonEmpty, ne...)
 			}
 		}
@@ -1327,7 +1316,8 @@ func checkC17(w *World, r *Report) {
 		emptyCut := map[Edge]bool{}
 		for _, al := range w.allocsOf(W, a.envT) {
 			if fs, okF := w.litFields(al); okF {
-				for _, e := range emptyBatchEdges(w, wg, fs["Messages"]) {
+				em, _ := batchEmptyEdges(w, wg, fs["Messages"], al)
+				for _, e := range em {
 					emptyCut[e] = true
 				}
 			}
@@ -1720,19 +1710,33 @@ func inlineLookup(w *World, g *FG, iv, tv ssa.Value, keyWant func(string) bool, 
 }
 
 
-// emptyBatchEdges: the edges on which the slice v (the accumulated Messages of the batch) is known to be empty.
-func emptyBatchEdges(w *World, g *FG, v ssa.Value) []Edge {
-	if v == nil {
-		return nil
+
+
+// isLenOfBatch: v is len(...) of the batch's Messages: of the accumulated slice mv itself, or of the
+// Messages field read back from the Envelope literal lit (possibly through a spliced builder's result).
+func isLenOfBatch(w *World, v ssa.Value, mv ssa.Value, lit *ssa.Alloc) bool {
+	args, ok := isBuiltinCall(v, "len")
+	if !ok || len(args) != 1 {
+		return false
 	}
-	want := "len(" + w.pathOf(v) + ")"
-	es, _ := g.CondEdges(func(c ssa.Value) (bool, bool) {
-		b, ok := c.(*ssa.BinOp)
-		if !ok {
-			return false, false
+	if mv != nil && w.pathOf(args[0]) == w.pathOf(mv) {
+		return true
+	}
+	if ld, isLd := args[0].(*ssa.UnOp); isLd && ld.Op == token.MUL {
+		if fa, isFA := ld.X.(*ssa.FieldAddr); isFA && lit != nil {
+			if name, _ := fieldName(fa); name == "Messages" && w.resolve(fa.X) == ssa.Value(lit) {
+				return true
+			}
 		}
-		x, y := w.pathOf(b.X), w.pathOf(b.Y)
-		if x != want || y != "K:0" {
+	}
+	return false
+}
+
+// batchEmptyEdges: edges on which the batch is known to be empty / non-empty.
+func batchEmptyEdges(w *World, g *FG, mv ssa.Value, lit *ssa.Alloc) (empty, nonEmpty []Edge) {
+	return g.CondEdges(func(c ssa.Value) (bool, bool) {
+		b, ok := c.(*ssa.BinOp)
+		if !ok || w.pathOf(b.Y) != "K:0" || !isLenOfBatch(w, b.X, mv, lit) {
 			return false, false
 		}
 		switch b.Op {
@@ -1743,5 +1747,4 @@ func emptyBatchEdges(w *World, g *FG, v ssa.Value) []Edge {
 		}
 		return false, false
 	})
-	return es
 }
